@@ -91,6 +91,12 @@ def weight(op):
             return len(t[2].split(",")) ** 3
         if t[0] == "selfcheck":
             return int(t[2])
+        if t[0] == "list4":
+            return len(t[2].split(",")) ** 4
+        if t[0] == "aliasl":
+            return len(t[2].split(","))
+        if t[0] == "aliasr":
+            return int(t[3]) - int(t[2]) + 1
     except Exception:
         pass
     return 1
@@ -102,6 +108,8 @@ def nontrivial(op, res):
 
 def refine(op):
     t = op.split()
+    if len(t) < 2:
+        return None
     f = t[1]
     if t[0] == "range1":
         a, b = int(t[2]), int(t[3])
@@ -127,7 +135,31 @@ def refine(op):
     if t[0] == "list3":
         vs = t[2].split(",")
         return [f"call {f} {a} {b} {c}" for a in vs for b in vs for c in vs][:400000]
+    if t[0] == "list4":
+        vs = t[2].split(",")
+        return [f"call {f} {a} {b} {c} {d}" for a in vs for b in vs for c in vs for d in vs][:400000]
+    if t[0] == "aliasl":
+        return [f"alias {f} {a}" for a in t[2].split(",")]
+    if t[0] == "aliasr":
+        return [f"alias {f} {a}" for a in range(int(t[2]), int(t[3]) + 1)]
     return None
+
+
+DIV_MIXED = [("i32", "u32"), ("u32", "i32"), ("i8", "u8"), ("u8", "i64"), ("i64", "u64"), ("u16", "i32"), ("i16", "u64"), ("u64", "i8"), ("i32", "i64"), ("u32", "u64")]
+MASK_C = {"u8": [0, 1, 5, 255], "u16": [0, 256, 65535], "u32": [0, 65536, 4294967295], "u64": [0, 4294967296, 18446744073709551615]}
+SHIFTED_MASK_C = {"u8": [0, 3, 7], "u16": [0, 8, 15], "u32": [0, 16, 31], "u64": [0, 32, 63]}
+STATIC_DIVIDENDS = {"u32": [0, 1, 2, 3, 6, 7, 8, 65535, 65536, 65537, 2147483648, 4294967294, 4294967295],
+                    "u64": [0, 1, 2, 3, 6, 7, 8, 65535, 65536, 65537, 4294967296, 9223372036854775808, 18446744073709551614, 18446744073709551615]}
+ENUM_MAXIMA = {"u8": [0, 2, 254], "u16": [2, 256, 65534], "u32": [2, 69999], "u64": [2, 4999999999]}
+PROMOTED = {"u8": "i32", "i8": "i32", "u16": "i32", "i16": "i32", "u32": "u32", "i32": "i32", "u64": "u64", "i64": "i64"}
+
+
+def small(t, rng=None, n=0):
+    """a short boundary list of t (for the quadruple / triple enumerations)"""
+    vs = {lo(t), lo(t) + 1, -2, -1, 0, 1, 2, 5, hi(t) - 1, hi(t), hi(t) // 2, hi(t) // 2 + 1}
+    if rng is not None:
+        vs |= {rng.range(lo(t), hi(t)) for _ in range(n)}
+    return sorted(v for v in vs if lo(t) <= v <= hi(t))
 
 
 FROM_INT_SIZES = {"u8": [1, 3, 255], "u16": [3, 257, 65535], "u32": [3, 70000], "u64": [3, 5000000000]}
@@ -225,6 +257,7 @@ def batches(rng, tier):
             b = sorted({v for v in b if lo(t) <= v <= hi(t)})
             ops.append(f"list2 {f}_{t} {csv(a)} {csv(b)}")
     yield Batch("binary-random", ops, note="seeded random 32/64-bit operands, small and large divisors")
+    yield from batches2(rng, tier)
     if thorough:
         ops = [f"selfcheck {f} {65536 * 65536}" for f in ("diff_u16", "diff_i16", "mod_u16")]
         yield Batch("full-16bit-squares", ops, exhaustive=True, note="all 2^32 operand pairs of the 16-bit instantiation against the harness' 128-bit oracle")
@@ -235,6 +268,95 @@ def batches(rng, tier):
                 b = rng.range(lo(t), hi(t) - 255)
                 ops.append(f"range2 {f}_{t} {a} {a + 255} {b} {b + 255}")
         yield Batch("16bit-windows", ops, note="random 256x256 windows of the 16-bit squares through the model")
+
+
+def batches2(rng, tier):
+    """second generation: narrow / mixed div, interval_distance, the unchecked casts, compile-time masks, aliasing, statics"""
+    thorough = tier == "thorough"
+    # ---- math::div on 8/16-bit operands (quotient computed in int) and on mixed operand types
+    ops = [f"range2 div_{t} {lo(t)} {hi(t)} {lo(t)} {hi(t)}" for t in ("u8", "i8")]
+    for t in ("u16", "i16"):
+        ops.append(f"list2 div_{t} {csv(lattice(t))} {csv(lattice(t))}")
+        ops.append(f"range2 div_{t} {lo(t)} {hi(t)} -3 3" if t == "i16" else f"range2 div_{t} 0 {hi(t)} 0 6")
+        ops.append(f"range2 div_{t} {lo(t)} {lo(t) + 5} {lo(t)} {hi(t)}")
+        ops.append(f"range2 div_{t} {hi(t) - 5} {hi(t)} {lo(t)} {hi(t)}")
+    yield Batch("div-narrow", ops, exhaustive=True, note="all pairs of the 8-bit instantiations; 16-bit: lattice pairs, every dividend against the divisors around 0, every divisor against the extreme dividends")
+    ops = []
+    for l, r in DIV_MIXED:
+        la = lattice(l) if BITS[l] > 8 else list(range(lo(l), hi(l) + 1))
+        ra = lattice(r) if BITS[r] > 8 else list(range(lo(r), hi(r) + 1))
+        ops.append(f"list2 div_{l}_{r} {csv(la)} {csv(ra)}")
+    yield Batch("div-mixed", ops, note="mixed operand types (the usual arithmetic conversions choose the type of the division): lattice x lattice, 8-bit operands exhaustively")
+    # ---- interval_distance: all quadruples over a window around 0 / the lower end (every relative position of two small
+    # intervals incl. equal ends, containment, touching, inverted intervals) and over the boundary values
+    ops = []
+    r = rng.fork("interval")
+    for t in ALL:
+        w = list(range(-6, 7)) if t[0] == "i" else list(range(0, 13))
+        ops.append(f"list4 interval_distance_{t} {csv(w)}")
+        ops.append(f"list4 interval_distance_{t} {csv(small(t, r, 2))}")
+        if t[0] == "u":
+            ops.append(f"list4 interval_distance_{t} {csv(list(range(hi(t) - 9, hi(t) + 1)))}")
+        else:
+            ops.append(f"list4 interval_distance_{t} {csv(list(range(lo(t), lo(t) + 5)) + list(range(hi(t) - 4, hi(t) + 1)))}")
+    yield Batch("interval_distance", ops, exhaustive=True, note="all quadruples (a1,b1,a2,b2) over 13-value windows, the type's ends and a boundary list: every relative position of two intervals")
+    # ---- the unchecked casts
+    ops = []
+    for grp in (UNS, SIG):
+        for d in grp:
+            for s in grp:
+                fs = ["size"] + (["safe_numeric"] if BITS[d] >= BITS[s] else [])
+                for f in fs:
+                    ops.append(f"range1 {f}_{d}_{s} {lo(s)} {hi(s)}" if BITS[s] <= 16 else f"list1 {f}_{d}_{s} {csv(lattice(s))}")
+    for t in ALL:
+        fs = ["promote_int", "to_signed" if t[0] == "u" else "to_unsigned"]
+        for f in fs:
+            ops.append(f"range1 {f}_{t} {lo(t)} {hi(t)}" if BITS[t] <= 16 else f"list1 {f}_{t} {csv(lattice(t))}")
+    yield Batch("casts", ops, exhaustive=True, note="cast::size (32 pairs), safe_numeric (20), to_signed, to_unsigned, promote_int: all 8/16-bit values, lattice of the wider sources")
+    r = rng.fork("casts-random")
+    ops = []
+    for grp in (UNS, SIG):
+        for d in grp:
+            for s in grp:
+                if BITS[s] > 16:
+                    vs = sorted({r.range(lo(s), hi(s)) for _ in range(30)} | {r.range(lo(d) - 300, hi(d) + 300) for _ in range(30)})
+                    ops.append(f"list1 size_{d}_{s} {csv([v for v in vs if lo(s) <= v <= hi(s)])}")
+    for t in ("u32", "u64", "i32", "i64"):
+        vs = sorted({r.range(lo(t), hi(t)) for _ in range(60)})
+        ops.append(f"list1 {'to_signed' if t[0] == 'u' else 'to_unsigned'}_{t} {csv(vs)}")
+    yield Batch("casts-random", ops, note="seeded random 32/64-bit sources")
+    # ---- compile-time masks and statics
+    ops = [f"call mask_c_{t}_{m}" for t in UNS for m in MASK_C[t]] + [f"call shifted_mask_c_{t}_{b}" for t in UNS for b in SHIFTED_MASK_C[t]]
+    for t in ("u32", "u64"):
+        for a in STATIC_DIVIDENDS[t]:
+            for b in (1, 2, 3, 7, 65536, hi(t) - 1, hi(t)):
+                ops.append(f"static2 ceil_div_static_{t} {a} {b}")
+    ops += [f"enumsize {u} {m}" for u in UNS for m in ENUM_MAXIMA[u]]
+    yield Batch("compile-time", ops, exhaustive=True, note="mask_c / shifted_mask_c instantiations, ceil_div_static against the run-time ceil_div, enum_::size of the harness enums")
+    # ---- one object in every parameter (the functions take references)
+    ops = []
+    for t in ALL:
+        fs = ["clamp", "diff", "div"] + (["mod", "bit_test"] if t[0] == "u" else [])
+        for f in fs:
+            ops.append(f"aliasr {f}_{t} {lo(t)} {hi(t)}" if BITS[t] <= 16 else f"aliasl {f}_{t} {csv(lattice(t))}")
+    for f in ("ceil_div_u32", "ceil_div_u64", "ceil_div_signed_i32", "ceil_div_signed_i64"):
+        ops.append(f"aliasl {f} {csv(lattice(f.rsplit('_', 1)[1]))}")
+    yield Batch("aliasing", ops, exhaustive=True, note="f(x, x) / clamp(x, x, x) with the same object bound to every reference parameter: all 8/16-bit values, lattice otherwise")
+    if thorough:
+        ops = []
+        for t in ("u16", "i16"):
+            for _ in range(8):
+                a = rng.range(lo(t), hi(t) - 255)
+                b = rng.range(lo(t), hi(t) - 255)
+                ops.append(f"range2 div_{t} {a} {a + 255} {b} {b + 255}")
+        for t in ("u8", "i8"):
+            w = list(range(lo(t), lo(t) + 24))
+            ops.append(f"list4 interval_distance_{t} {csv(w)}")
+            w = list(range(hi(t) - 23, hi(t) + 1))
+            ops.append(f"list4 interval_distance_{t} {csv(w)}")
+            w = list(range(lo(t), hi(t) + 1, 11))
+            ops.append(f"list4 interval_distance_{t} {csv(w)}")
+        yield Batch("second-generation-thorough", ops, note="256x256 windows of the 16-bit div squares; 24-value windows and a stride-11 grid of the 8-bit interval quadruples")
 
 
 # ---------------------------------------------------------------- independent spec oracle (used when an obligation broke)
